@@ -119,7 +119,7 @@ def build_cli_cases(scr, callables, cli_only, seed, thorough):
         ["-n", "-c", "$ARGS.positional | map(ltrimstr(\"/\"), @sh, test(\"etc\"))", "--args"] + [s for _c, s in argv_strs])
     # every native / definition of the tree through the real binary
     all_callables = list(callables) + [(n, a, "%s/%d" % (n, a)) for n, a in sorted(cli_only.items()) if n not in W.EXCLUDED]
-    per = 6 if thorough else 2
+    per = 4 if thorough else 1
     for name, n, label in all_callables:
         picks = W._pick(strs, per, seed, "cli", label)
         for j, (c, s) in enumerate(picks):
@@ -299,11 +299,11 @@ def main():
         tasks = []
         for i, s in enumerate(shard(reqs, nshards)):
             tasks.append({"kind": "phase", "tag": "s%d" % i, "reqs": s, "tz": "UTC", "scr": scr, "jaqmon": jaqmon,
-                          "cfg": cfg, "timeout": 150 if not thorough else 600, "inputs": extra_inputs})
+                          "cfg": cfg, "timeout": 900, "inputs": extra_inputs})
         tzc = ":%s/tz/Custom" % scr
         for tzname, tz in (("UTC", "UTC"), ("Europe/Berlin", "Europe/Berlin"), ("unset", None), ("file", tzc), ("bogus", "No/Such_Zone")):
             tasks.append({"kind": "phase", "tag": "tz-" + tzname.replace("/", "_"), "reqs": list(W.time_requests(scr, tzname)),
-                          "tz": tz, "scr": scr, "jaqmon": jaqmon, "cfg": cfg, "timeout": 150, "inputs": extra_inputs})
+                          "tz": tz, "scr": scr, "jaqmon": jaqmon, "cfg": cfg, "timeout": 900, "inputs": extra_inputs})
         # ---- the real binary: control runs first (they teach the runtime's own file reads)
         noise = set()
         cli_results = []
